@@ -37,9 +37,13 @@ pub struct FileStorage {
 impl FileStorage {
     fn apply_wal_record(file: &mut File, record: WriteAheadLogRecord) -> Result<(), DbError> {
         if record.value.is_empty() {
+            #[cfg(agdb_verif)]
+            crate::verif::fs_event(crate::verif::FsEvent::DataSetLen(record.pos));
             file.set_len(record.pos)?;
         } else {
             file.seek(SeekFrom::Start(record.pos))?;
+            #[cfg(agdb_verif)]
+            crate::verif::fs_event(crate::verif::FsEvent::DataWrite(record.pos, &record.value));
             file.write_all(&record.value)?;
         }
 
@@ -114,8 +118,14 @@ impl StorageData for FileStorage {
         let mut buffer = vec![0_u8; value_len as usize];
 
         if let Ok(_guard) = self.lock.try_lock() {
+            #[cfg(agdb_verif)]
+            crate::verif::fs_event(crate::verif::FsEvent::ReadLocked(pos, value_len));
             Self::read_impl(&self.file, pos, &mut buffer)?;
+            #[cfg(agdb_verif)]
+            crate::verif::fs_event(crate::verif::FsEvent::ReadDone);
         } else {
+            #[cfg(agdb_verif)]
+            crate::verif::fs_event(crate::verif::FsEvent::ReadContended(pos, value_len));
             Self::read_impl(&self.open_file()?, pos, &mut buffer)?;
         }
 
@@ -142,6 +152,8 @@ impl StorageData for FileStorage {
             self.wal.insert(current_len, &[])?;
         }
 
+        #[cfg(agdb_verif)]
+        crate::verif::fs_event(crate::verif::FsEvent::DataSetLen(new_len));
         self.file.set_len(new_len)?;
         self.len = new_len;
         Ok(())
@@ -163,6 +175,8 @@ impl StorageData for FileStorage {
         Self::read_impl(&self.file, pos, &mut buffer)?;
         self.wal.insert(pos, &buffer)?;
         self.file.seek(SeekFrom::Start(pos))?;
+        #[cfg(agdb_verif)]
+        crate::verif::fs_event(crate::verif::FsEvent::DataWrite(pos, bytes));
         self.file.write_all(bytes)?;
         self.len = std::cmp::max(current_len, end);
         Ok(())
